@@ -1,0 +1,26 @@
+//go:build verif
+
+package x509
+
+// Verification hooks for properties C08/C07 (CertPool, chain building): thin
+// wrappers over unexported code of cert_pool.go. Built only with -tags verif.
+
+// ZVFindVerifiedParents exposes (*CertPool).findVerifiedParents.
+func (s *CertPool) ZVFindVerifiedParents(cert *Certificate) (parents []int, errCert *Certificate, err error) {
+	return s.findVerifiedParents(cert)
+}
+
+// ZVIndex returns copies of the pool's index maps (bySubjectKeyId, byName, bySHA256).
+func (s *CertPool) ZVIndex() (bySubjectKeyId, byName map[string][]int, bySHA256 map[string]int) {
+	bySubjectKeyId, byName, bySHA256 = map[string][]int{}, map[string][]int{}, map[string]int{}
+	for k, v := range s.bySubjectKeyId {
+		bySubjectKeyId[k] = append([]int(nil), v...)
+	}
+	for k, v := range s.byName {
+		byName[k] = append([]int(nil), v...)
+	}
+	for k, v := range s.bySHA256 {
+		bySHA256[k] = v
+	}
+	return
+}
